@@ -691,3 +691,8 @@ PROPS["C03"]["claim"] += (" HISTORY FORM about the translated code (Proofs/EndTo
                           "history of commands (retransmissions, temporary codes, forged or undecodable replies, transport failures) is the packet of one of the history's commands under one of that command's own IV draws; "
                           "generated_history_packets_open — the BMC opens every one of them: RMCP header, AuthCode verifies under K1, authenticated + encrypted flags, its session ID, payload decrypts under K2 to a "
                           "checksum-valid IPMI message that is the caller's command with the caller's request body.")
+for _p in ("C11", "C04"):
+    PROPS[_p]["proofs"] = PROPS[_p]["proofs"] + ["Bmc.Proofs.EndToEnd.HistoryC11"]
+    PROPS[_p]["claim"] += (" HISTORY FORM about the translated code (Proofs/EndToEnd/HistoryC11.lean): generated_history_results — over a whole history of commands run by SendCommand AS TRANSLATED (any replies, "
+                           "forgeries, losses, any number of earlier commands), whenever a call returns a completion code with a nil error, a reply delivered DURING THAT CALL decoded to a message for THAT call's command "
+                           "(NetFn+1, command, body code, enterprise) with that completion code, in a wrapper addressed to this session, authenticated when an integrity algorithm was negotiated, whose AuthCode is the keyed hash under K1.")
